@@ -8,7 +8,10 @@ VARS = ["a", "b", "c", "d", "n", "m", "p", "q", "u", "w"]
 FAULTS = {
     "nonProcedure": ["(5 1)", "('sym 1 2)", "((car '(1)) 2)"],
     "arity": None,  # built from a known procedure
-    "unbound": ["undefined-var-zz", "(undefined-fn-zz 1)"],
+    "unbound": ["undefined-var-zz", "(undefined-fn-zz 1)", "undefined-var-zz", "(undefined-fn-zz 1)",
+                "((lambda () (define ia-zz undefined-var-zz) (define undefined-var-zz 1) ia-zz))",
+                "((lambda (t) (define undefined-var-zz undefined-var-zz) t) 1)",
+                "(let () (define (ia-zz) 1) (define ib-zz (undefined-fn-zz 1)) (define (undefined-fn-zz q) q) ib-zz)"],
     "setUnbound": ["(set! undefined-var-zz 1)"],
     "type": ["(car 5)", "(+ 1 'a)", "(vector-ref '(1) 0)", "(cdr '())", "(< 1 \"s\")"],
     "vectorIndex": ["(vector-ref (vector 1 2) 2)", "(vector-set! (vector 1) 5 0)", "(vector-ref (vector) -1)", "(vector-ref (vector 1 2 3) -1)",
@@ -91,11 +94,17 @@ class Gen:
             use_apply = r.random() < 0.25
             cut = r.randrange(0, ar + 1)
             args = [self.tick(self.int_(env, d - 1)) for _ in range(ar)]
+            # the OPERATOR is an expression too, evaluated exactly once like the operands: now and then a compound one with a probe
+            op_expr = n
+            if self.ticks and r.random() < 0.3:
+                self.tick_id += 1
+                op_expr = r.choice(["(begin (tick %d) %s)", "((lambda () (tick %d) %s))", "(if (begin (tick %d) #t) %s car)"]) % (self.tick_id, n)
+                self.note("compound-operator")
             sp = self.spelling.get("call")
             if sp == "apply" or (sp is None and use_apply):
                 self.note("apply")
-                return "(apply %s %s (list %s))" % (n, " ".join(args[:cut]), " ".join(args[cut:]))
-            return "(%s %s)" % (n, " ".join(args))
+                return "(apply %s %s (list %s))" % (op_expr, " ".join(args[:cut]), " ".join(args[cut:]))
+            return "(%s %s)" % (op_expr, " ".join(args))
         if k < 0.56:
             self.note("lambda-call")
             ar = r.randrange(0, 4)
@@ -166,6 +175,14 @@ class Gen:
                     inits.append(e())
             binds = " ".join("(%s %s)" % (nm, i) for nm, i in zip(names, inits))
             return "(let (%s) %s)" % (binds, self.body(env + [(nm, "int") for nm in names], d - 1))
+        if k == 1 and r.random() < 0.3:
+            outer = [nm for nm in self.vars_of(env, "int") if nm not in RESERVED]
+            if outer:
+                # an earlier initialiser makes a closure that mentions a variable of the ENCLOSING scope; a later binding of the
+                # same let* has that name: the closure keeps meaning the outer variable (let* scopes left to right)
+                v, g = r.choice(outer), self.fresh("s")
+                self.note("letstar-closure-over-later-name")
+                return "(let* ((%s (lambda () %s)) (%s %s)) (+ (* 100 (%s)) %s))" % (g, v, v, e(), g, v)
         if k == 1:
             n = r.randrange(0, 4)
             names, binds, env2 = [], [], list(env)
